@@ -75,6 +75,13 @@ type Exec struct {
 }
 
 func NewExec(p *Program, w *World, prefix string) *Exec {
+	readonlyCallee = func(fn *types.Func) bool {
+		fi := p.ByObj[fn]
+		if fi == nil {
+			return false
+		}
+		return p.IsReadonly(fi)
+	}
 	return &Exec{P: p, W: w, prefix: prefix, names: map[string]int{}, globals: map[types.Object]Term{}}
 }
 
@@ -877,6 +884,9 @@ func (x *Exec) getFieldPath(cur Term, t types.Type, path []int) (Term, bool) {
 // ---------------------------------------------------------------------
 // loops
 
+// readonlyCallee is installed by the driver: callee known not to write through receiver/pointer parameters.
+var readonlyCallee func(*types.Func) bool
+
 func assignedVars(info *types.Info, n ast.Node, closures map[types.Object]*ast.FuncLit) map[types.Object]bool {
 	out := map[types.Object]bool{}
 	var root func(e ast.Expr) types.Object
@@ -937,7 +947,9 @@ func assignedVars(info *types.Info, n ast.Node, closures map[types.Object]*ast.F
 					if sel, ok := info.Selections[se]; ok && sel.Kind() == types.MethodVal {
 						if sig, ok := sel.Obj().Type().(*types.Signature); ok && sig.Recv() != nil {
 							if _, isPtr := sig.Recv().Type().(*types.Pointer); isPtr {
-								mark(se.X)
+								if fn, isFn := sel.Obj().(*types.Func); !isFn || readonlyCallee == nil || !readonlyCallee(fn) {
+									mark(se.X)
+								}
 							}
 						}
 					}
